@@ -1008,8 +1008,9 @@ def corr_propver(ck: Ck, base: str, glue: dict) -> None:
     every record size for a lump with one (all-zero) record; every recorded format for the writer (record size written)."""
     import srctools.bsp as B
     from srctools.math import Angle, Vec
-    t = glue.get('prop_version_choice')
-    if not t:
+    from translate import c11_propver
+    t = c11_propver.LAST_TABLES
+    if not t or not glue.get('prop_version_choice'):
         return
     SV = B.StaticPropVersion
     b = B.BSP(base)
